@@ -5,11 +5,11 @@
 use serde_json::{json, Value};
 use std::io::{BufRead, BufReader, BufWriter, Write};
 use std::rc::Rc;
-use std::sync::atomic::{AtomicI64, AtomicU64, Ordering};
+use std::sync::atomic::{AtomicI64, Ordering};
 use std::sync::{Arc, Mutex};
 
 static CUR_IDX: AtomicI64 = AtomicI64::new(-1);
-static TICKS: AtomicU64 = AtomicU64::new(0);
+use drv::TICKS;
 
 fn is_item(ev: &Value) -> bool {
     matches!(ev["k"].as_str(), Some("T") | Some("I") | Some("C") | Some("N"))
@@ -116,7 +116,10 @@ fn main() {
 
         CUR_IDX.store(idx, Ordering::SeqCst);
         TICKS.fetch_add(1, Ordering::SeqCst);
-        drv::begin_run(&r.script, ctor < 2, clone_at >= 0);
+        let notx = req["notx"].as_bool().unwrap_or(false);
+        // Two lexers (original and clone) may each run every action once.
+        let budget = (r.chars.len() as i64 + 10) * if clone_at >= 0 { 2 } else { 1 };
+        drv::begin_run(&r.script, ctor < 2 && !notx, clone_at >= 0, budget);
         let res = std::panic::catch_unwind(std::panic::AssertUnwindSafe(|| run(&r)));
         let mut actual = drv::take_log();
         if let Err(payload) = res {
